@@ -119,13 +119,18 @@ Conv(it, w) == IF it.kind # "arg" THEN "U" ELSE IF it.vt = "int" THEN ToInt(w) E
 \* one leaf of a branch tries to take its leftmost remaining occurrence
 LeafAttempt(it, R) ==
   LET occ == R[it.id] IN
-  IF occ = <<>>
-  THEN IF it.kind = "switch" THEN [res |-> "ok", v |-> FALSE, used |-> {}, left |-> 0]
-       ELSE IF it.arity = "opt" THEN [res |-> "ok", v |-> "NONE", used |-> {}, left |-> 0]
-       ELSE [res |-> "miss", v |-> "NONE", used |-> {}, left |-> 0]
+  IF it.kind = "arg" /\ it.arity \in {"many", "some"}
+  THEN \* a repeated member takes every remaining occurrence
+       IF \E i \in DOMAIN occ : BadValue(it, occ[i].v) THEN [res |-> "hard", v |-> "NONE", used |-> {}, left |-> 0, all |-> TRUE]
+       ELSE IF occ = <<>> THEN [res |-> IF it.arity = "some" THEN "miss" ELSE "ok", v |-> <<>>, used |-> {}, left |-> 0, all |-> TRUE]
+       ELSE [res |-> "ok", v |-> [i \in DOMAIN occ |-> Conv(it, occ[i].v)], used |-> {it.id}, left |-> occ[1].p, all |-> TRUE]
+  ELSE IF occ = <<>>
+  THEN IF it.kind = "switch" THEN [res |-> "ok", v |-> FALSE, used |-> {}, left |-> 0, all |-> FALSE]
+       ELSE IF it.arity = "opt" THEN [res |-> "ok", v |-> "NONE", used |-> {}, left |-> 0, all |-> FALSE]
+       ELSE [res |-> "miss", v |-> "NONE", used |-> {}, left |-> 0, all |-> FALSE]
   ELSE LET h == Head(occ) IN
-       IF it.kind = "arg" /\ BadValue(it, h.v) THEN [res |-> "hard", v |-> "NONE", used |-> {}, left |-> 0]
-       ELSE [res |-> "ok", used |-> {it.id}, left |-> h.p,
+       IF it.kind = "arg" /\ BadValue(it, h.v) THEN [res |-> "hard", v |-> "NONE", used |-> {}, left |-> 0, all |-> FALSE]
+       ELSE [res |-> "ok", used |-> {it.id}, left |-> h.p, all |-> FALSE,
              v |-> IF it.kind = "switch" THEN TRUE
                    ELSE IF it.arity = "opt" THEN [some |-> Conv(it, h.v)] ELSE Conv(it, h.v)]
 MinOf(S) == CHOOSE x \in S : \A y \in S : x <= y
@@ -136,6 +141,7 @@ BranchAttempt(br, R) ==
   [res |-> IF \E j \in DOMAIN A : A[j].res = "hard" THEN "hard"
           ELSE IF \E j \in DOMAIN A : A[j].res = "miss" THEN "miss" ELSE "ok",
    used |-> used, left |-> IF lefts = {} THEN 0 ELSE MinOf(lefts),
+   allof |-> UNION {IF A[j].all THEN A[j].used ELSE {} : j \in DOMAIN A},
    v |-> IF Len(br.fields) = 1 THEN A[1].v ELSE [t |-> [j \in DOMAIN A |-> A[j].v]]]
 
 RECURSIVE AltRounds(_, _, _, _)
@@ -145,7 +151,7 @@ AltRounds(f, R, vals, fuel) ==
   IF \E b \in DOMAIN A : A[b].res = "hard" THEN [ok |-> FALSE, why |-> [k |-> "conv"]]
   ELSE IF S = {} \/ fuel = 0 THEN [ok |-> TRUE, vals |-> vals, R |-> R]
   ELSE LET w  == CHOOSE b \in S : \A c \in S : A[b].left < A[c].left \/ (A[b].left = A[c].left /\ b <= c)
-           R2 == [i \in DOMAIN R |-> IF i \in A[w].used THEN Tail(R[i]) ELSE R[i]] IN
+           R2 == [i \in DOMAIN R |-> IF i \in A[w].allof THEN <<>> ELSE IF i \in A[w].used THEN Tail(R[i]) ELSE R[i]] IN
        AltRounds(f, R2, Append(vals, [v |-> w - 1, x |-> A[w].v]), fuel - 1)
 
 Leftover(f, R) == \E it \in BranchLeaves(f) : R[it.id] # <<>>
@@ -165,7 +171,7 @@ AltVal(f, acc) ==
      ELSE IF Cardinality(O) >= 2 THEN [ok |-> FALSE, why |-> [k |-> "conflict"]]
      ELSE IF Cardinality(O) = 1 THEN
           LET b == CHOOSE b \in O : TRUE
-              R2 == [i \in DOMAIN acc |-> IF i \in A[b].used THEN Tail(acc[i]) ELSE acc[i]] IN
+              R2 == [i \in DOMAIN acc |-> IF i \in A[b].allof THEN <<>> ELSE IF i \in A[b].used THEN Tail(acc[i]) ELSE acc[i]] IN
           IF A[b].res = "ok" /\ ~Leftover(f, R2)
           THEN [ok |-> TRUE, v |-> IF f.arity = "opt" THEN [some |-> [v |-> b - 1, x |-> A[b].v]]
                                    ELSE [v |-> b - 1, x |-> A[b].v]]
